@@ -90,6 +90,7 @@ structure DecSt where
   n : Nat := 0                             -- bytes consumed from the data area
   crc : BitVec 16 := 0#16
   hdr : Header := {}
+  cleanEOF : Bool := false                 -- the reader ended before the first header byte
   file : Option FileSt := none
   unkInit : Bool := false                  -- the unknown-item maps exist (defers registered)
   unkF : List ((Nat × Nat) × Nat) := []
